@@ -120,6 +120,19 @@ class Gen:
 
     def program(self, nsteps):
         self.pending = []
+        if self.rng.random() < 0.3:
+            # asked before the symbol exists (nothing recorded yet) and again after its definition
+            self.lines.append('@db @string { "<" @getmeta early0, "ID" ">" }')
+            self.probes.append(("early0", "ID", "<>"))
+            self.addr += 2
+            self.lines.append('@meta "ID" "PRG", "BANK" "33"')
+            self.lines.append("early0:")
+            self.lines.append("@endmeta")
+            self.expect["early0"] = (self.addr, {"ID": "PRG", "BANK": "33"})
+            self.lines.append('@db @string { "[" @getmeta early0, "ID" "]" }')
+            self.probes.append(("early0", "ID", "[PRG]"))
+            self.addr += 5
+            self.feat["getmeta_before_and_after"] = self.feat.get("getmeta_before_and_after", 0) + 1
         for _ in range(nsteps):
             self.step()
         if self.meta and self.rng.random() < 0.5:
